@@ -149,8 +149,23 @@ def _lookalike_cases():
                        "_meta": {"client": "lookalike"}}
 
 
+def _history_cases():
+    """the decision depends on the collection and the client only - not on what the process decided before: an entry
+    with a prefix length evaluated earlier must not turn the plain address into that subnet (nor the other way round)"""
+    for addr, n, inside, outside in (("10.1.0.1", 16, "10.1.200.9", "10.2.0.1"), ("192.168.0.7", 24, "192.168.0.99", "192.168.1.7"),
+                                     ("fd00:1::1", 64, "fd00:1::beef", "fd00:2::1"), ("10.1.0.1", 0, "8.8.8.8", "8.8.4.4"),
+                                     ("::ffff:10.1.0.1", 112, "10.1.200.9", "10.2.0.1")):
+        masked, plain = K.S("%s/%d" % (addr, n)), K.S(addr)
+        for client in (inside, outside, addr):
+            for first, then in ((masked, plain), (plain, masked)):
+                for prior_client in (client, addr):
+                    yield {"kind": "contains", "coll": "list", "entries": [then], "client": client, "allow_mask": True,
+                           "prior": [{"entries": [first], "client": prior_client}], "_meta": {"client": "history"}}
+
+
 def _contains_cases(rng, tier, mult):
     yield from _lookalike_cases()
+    yield from _history_cases()
     n = (1100 if tier == "quick" else 30000) * mult
     for _ in range(n):
         client, cls = K.rand_client(rng)
